@@ -9,8 +9,118 @@ use std::{
 };
 
 use mio::net::TcpStream;
-use sozu_lib::socket::{SocketHandler, SocketResult};
+use rustls::{
+    client::danger::{HandshakeSignatureValid, ServerCertVerified, ServerCertVerifier},
+    pki_types::{pem::PemObject, CertificateDer, PrivateKeyDer, ServerName, UnixTime},
+    ClientConfig, DigitallySignedStruct, ServerConfig, ServerConnection, SignatureScheme,
+};
+use sozu_lib::socket::{FrontRustls, SocketHandler, SocketResult};
+use std::sync::{Arc, Mutex};
 use verif_harness::*;
+
+#[derive(Debug)]
+struct NoVerify;
+impl ServerCertVerifier for NoVerify {
+    fn verify_server_cert(&self, _: &CertificateDer<'_>, _: &[CertificateDer<'_>], _: &ServerName<'_>, _: &[u8], _: UnixTime) -> Result<ServerCertVerified, rustls::Error> {
+        Ok(ServerCertVerified::assertion())
+    }
+    fn verify_tls12_signature(&self, _: &[u8], _: &CertificateDer<'_>, _: &DigitallySignedStruct) -> Result<HandshakeSignatureValid, rustls::Error> {
+        Ok(HandshakeSignatureValid::assertion())
+    }
+    fn verify_tls13_signature(&self, _: &[u8], _: &CertificateDer<'_>, _: &DigitallySignedStruct) -> Result<HandshakeSignatureValid, rustls::Error> {
+        Ok(HandshakeSignatureValid::assertion())
+    }
+    fn supported_verify_schemes(&self) -> Vec<SignatureScheme> {
+        vec![
+            SignatureScheme::RSA_PKCS1_SHA256, SignatureScheme::RSA_PKCS1_SHA384, SignatureScheme::RSA_PKCS1_SHA512,
+            SignatureScheme::ECDSA_NISTP256_SHA256, SignatureScheme::ECDSA_NISTP384_SHA384, SignatureScheme::ED25519,
+            SignatureScheme::RSA_PSS_SHA256, SignatureScheme::RSA_PSS_SHA384, SignatureScheme::RSA_PSS_SHA512,
+        ]
+    }
+}
+
+/// a real FrontRustls (server side) whose peer is a rustls client thread that keeps reading
+struct Tls {
+    front: FrontRustls,
+    got: Arc<Mutex<Vec<u8>>>,
+    sent: Vec<u8>,
+}
+
+fn new_tls(limit: usize) -> Tls {
+    let _ = rustls::crypto::ring::default_provider().install_default();
+    let certs: Vec<CertificateDer<'static>> =
+        CertificateDer::pem_slice_iter(include_bytes!("/repo/lib/assets/local-certificate.pem")).map(|c| c.unwrap()).collect();
+    let key = PrivateKeyDer::from_pem_slice(include_bytes!("/repo/lib/assets/local-key.pem")).unwrap();
+    let sc = ServerConfig::builder().with_no_client_auth().with_single_cert(certs, key).unwrap();
+    let l = TcpListener::bind("127.0.0.1:0").unwrap();
+    let addr = l.local_addr().unwrap();
+    let got = Arc::new(Mutex::new(Vec::new()));
+    let got2 = got.clone();
+    std::thread::spawn(move || {
+        let mut cc = ClientConfig::builder().dangerous().with_custom_certificate_verifier(Arc::new(NoVerify)).with_no_client_auth();
+        cc.alpn_protocols = vec![];
+        let mut conn = rustls::ClientConnection::new(Arc::new(cc), ServerName::try_from("localhost".to_owned()).unwrap()).unwrap();
+        let mut tcp = StdStream::connect(addr).unwrap();
+        tcp.set_read_timeout(Some(Duration::from_secs(20))).unwrap();
+        while conn.is_handshaking() {
+            if conn.complete_io(&mut tcp).is_err() {
+                return;
+            }
+        }
+        let mut tls = rustls::StreamOwned::new(conn, tcp);
+        let mut buf = vec![0u8; 65536];
+        loop {
+            match tls.read(&mut buf) {
+                Ok(0) | Err(_) => return,
+                Ok(n) => got2.lock().unwrap().extend_from_slice(&buf[..n]),
+            }
+        }
+    });
+    let (mut srv, _) = l.accept().unwrap();
+    let mut session = ServerConnection::new(Arc::new(sc)).unwrap();
+    while session.is_handshaking() {
+        session.complete_io(&mut srv).expect("server handshake");
+    }
+    // flush the session tickets of TLS 1.3 before going non-blocking
+    while session.wants_write() {
+        session.write_tls(&mut srv).unwrap();
+    }
+    session.set_buffer_limit(if limit == 0 { None } else { Some(limit) });
+    srv.set_nonblocking(true).unwrap();
+    srv.set_nodelay(true).unwrap();
+    let front = FrontRustls {
+        stream: TcpStream::from_std(srv),
+        session,
+        peer_disconnected: false,
+        peer_reset: false,
+        session_ulid: rusty_ulid::Ulid::generate(),
+    };
+    Tls { front, got, sent: vec![] }
+}
+
+/// waits (flushing rustls) until the client has read everything reported as written; checks it
+fn tls_settle(t: &mut Tls, out: &mut Out, what: &str) {
+    let t0 = std::time::Instant::now();
+    loop {
+        if t.front.socket_wants_write() {
+            let _ = t.front.socket_write_vectored(&[]);
+        }
+        let n = t.got.lock().unwrap().len();
+        if n >= t.sent.len() {
+            break;
+        }
+        if t0.elapsed() > Duration::from_secs(10) {
+            out.viol("tls-lost", &format!("{what}: {} bytes reported written, the peer received {n}", t.sent.len()));
+            return;
+        }
+        std::thread::sleep(Duration::from_millis(1));
+    }
+    let g = t.got.lock().unwrap();
+    if g.len() != t.sent.len() || g[..] != t.sent[..] {
+        let i = g.iter().zip(t.sent.iter()).position(|(a, b)| a != b).unwrap_or(g.len().min(t.sent.len()));
+        out.viol("tls-corrupt", &format!("{what}: peer stream differs from what was reported written at offset {i} ({} vs {})", g.len(), t.sent.len()));
+    }
+}
 
 struct St {
     sock: TcpStream,
@@ -76,6 +186,7 @@ fn check_prefix(st: &mut St, want: &[u8], n: usize, out: &mut Out, what: &str) {
 
 fn run(case: &Case, out: &mut Out) {
     let mut st = new_pair();
+    let mut tls: Option<Tls> = None;
     for op in &case.ops {
         let a = &op.args;
         match op.name.as_str() {
@@ -102,6 +213,58 @@ fn run(case: &Case, out: &mut Out) {
                 out.obs(&[ts(if w == total { "all" } else { "partial" }), ts(status_name(s))]);
                 let flat: Vec<u8> = bufs.concat();
                 check_prefix(&mut st, &flat, w, out, &op.name);
+            }
+            "tlsnew" => {
+                tls = Some(new_tls(a[0].n() as usize));
+                out.obs(&[]);
+            }
+            "tlswrite" => {
+                let t = tls.as_mut().expect("tlsnew first");
+                let n = a[0].n() as usize;
+                let buf = pattern(n, a[1].n() as u64);
+                let (w, st) = t.front.socket_write(&buf);
+                out.obs(&[ts(if w == n { "all" } else { "partial" }), ts(status_name(st))]);
+                if w > n {
+                    out.viol("overcount", &format!("tls socket_write reported {w} of {n}"));
+                }
+                t.sent.extend_from_slice(&buf[..w.min(n)]);
+                tls_settle(t, out, "tlswrite");
+            }
+            "tlswritev" => {
+                // one vectored call, then the caller's retry loop on the remainder
+                let t = tls.as_mut().expect("tlsnew first");
+                // a[0] = the rustls buffer limit of this connection (for the model), a[1] = seed
+                let seed = a[1].n() as u64;
+                let bufs: Vec<Vec<u8>> = a[2..].iter().enumerate().map(|(i, x)| pattern(x.n() as usize, seed + i as u64)).collect();
+                let flat: Vec<u8> = bufs.concat();
+                let slices: Vec<IoSlice> = bufs.iter().map(|b| IoSlice::new(b)).collect();
+                let (w, st) = t.front.socket_write_vectored(&slices);
+                let mut toks = vec![ts(if w == flat.len() { "all" } else { "partial" }), ts(status_name(st))];
+                if w > flat.len() {
+                    out.viol("overcount", &format!("tls socket_write_vectored reported {w} of {}", flat.len()));
+                }
+                t.sent.extend_from_slice(&flat[..w.min(flat.len())]);
+                let mut done = w.min(flat.len());
+                let mut last = st;
+                let mut rounds = 0;
+                while done < flat.len() && last == SocketResult::Continue && rounds < 10_000 {
+                    let rest = [IoSlice::new(&flat[done..])];
+                    let (w2, st2) = t.front.socket_write_vectored(&rest);
+                    t.sent.extend_from_slice(&flat[done..done + w2.min(flat.len() - done)]);
+                    done += w2;
+                    last = st2;
+                    rounds += 1;
+                    if w2 == 0 && st2 == SocketResult::Continue {
+                        // rustls full and the socket accepted nothing more right now: let the peer drain
+                        std::thread::sleep(Duration::from_millis(1));
+                    }
+                }
+                toks.push(ts(if done == flat.len() { "all" } else { "partial" }));
+                out.obs(&toks);
+                if done < flat.len() && last == SocketResult::Continue {
+                    out.viol("tls-stall", &format!("vectored retry loop stopped at {done}/{} with status Continue", flat.len()));
+                }
+                tls_settle(t, out, "tlswritev");
             }
             "h2conv" => {
                 // h2conv <max> <ended> <seed> W <w>.. C <n>..
